@@ -101,6 +101,23 @@ Theorem C15_link_flat :
         a_get out (0 :: layout_idx h c) = nth (flat (g_c g) (data_shape g) (layout_idx g c)) vals d0.
 Proof. intros A. exact (@link_flat A). Qed.
 
+(** Relay: a component whose input declares its own grid [m] (compatible with the source's [g]) and
+    which describes the data it passes on by the info its input's exchange returned (grid [m]),
+    followed by a consumer on grid [h] compatible with [m]: the consumer receives, for any three
+    layouts and a time axis of any length, every value at the physical location it has in the source. *)
+Theorem C15_relay_transform :
+  forall (A : Type) (g m h : grid) (d : arr A) (T : nat),
+    wf_axes g -> wf_axes m -> wf_axes h -> 1 <= gdim g ->
+    compatible g m = true -> compatible m h = true ->
+    a_shape d = T :: data_shape g ->
+    exists out,
+      relay_deliver g m h d = LOk out /\
+      a_shape out = T :: data_shape h /\
+      canon_shape g = canon_shape h /\
+      forall t c, inb (canon_shape h) c ->
+        a_get out (t :: layout_idx h c) = a_get d (t :: layout_idx g c).
+Proof. intros A. exact (@relay_transform A). Qed.
+
 (** Living grid objects: for every list of grids and every script of comparisons
     (compatible_with, ==, get_transform_to between any two objects, the same partner repeatedly),
     data_location changes and copies, each answer is the pure function of the two objects' CURRENT
@@ -175,6 +192,17 @@ Example C15_link_flat_nonvacuous :
   end.
 Proof. vm_compute. reflexivity. Qed.
 
+Definition ex_m : grid := mkgrid ex_axes [false; true] true false true 0 false.
+Example C15_relay_transform_nonvacuous :
+  compatible ex_g ex_m = true /\ compatible ex_m ex_h = true /\ grid_eq ex_g ex_m = false /\ grid_eq ex_m ex_h = false /\
+  match relay_deliver ex_g ex_m ex_h ex_d, link_deliver ex_g ex_m ex_d with
+  | LOk out, LOk mid => list_of_arr out = [30; 31; 32; 20; 21; 22; 10; 11; 12; 0; 1; 2]%Z /\
+                        list_of_arr mid = [2; 12; 22; 32; 1; 11; 21; 31; 0; 10; 20; 30]%Z
+  | _, _ => False
+  end.
+Proof. vm_compute. repeat split. Qed.
+
+Print Assumptions C15_relay_transform.
 Print Assumptions C15_link_flat.
 Print Assumptions C15_compat_current.
 Print Assumptions C15_static_reads_stable.
